@@ -114,6 +114,9 @@ def run(ctx):
         for s in SS.blocks[i]["stmts"]:
             if s["s"] == "assign" and s["rv"]["k"] == "agg" and s["rv"].get("agg") == "array" and len(s["rv"]["ops"]) == 6:
                 arr = (i, s["rv"]["ops"])
+    if arr is None:
+        # navigational: the argv vector is built in another shape (pushes, a helper): cannot decide R13.3
+        raise __import__("facts").AnchorError("six-element argv literal not found in %s" % SS.key)
     if ctx.ob("R13.3", "%s|argv-literal" % SS.key, arr is not None, where=SS.span, detail="six-element argv literal located"):
         bb, ops = arr
         L = [op_local(o) for o in ops]
